@@ -65,7 +65,7 @@ class Children:
 
 class C10:
     prop = 'C10'
-    cases = {'quick': 150, 'thorough': 1600}
+    cases = {'quick': 150, 'thorough': 900}
     hashseeds = {'quick': [0, 1, 2], 'thorough': [0, 1, 2, 3, 4, 5, 6, 7]}
     technique = "differential property-based testing: the same generated scenario in K interpreters with different PYTHONHASHSEED, twice in each"
     rule = ("scenarios (all shipped pairings, wide DAG fronts with several ready tasks and few machines, shipped DelayModel with generated "
@@ -136,7 +136,7 @@ class C10:
 
     def run_shard(self, state, tier, seed, shard, nshards, cases=None):
         k = len(self.hashseeds[tier])
-        active = max(1, 16 // (k + 1))          # shards that actually run children
+        active = max(2, 16 // (k + 1))          # shards that actually run children
         if shard >= active:
             return
         ch = Children(self.hashseeds[tier])
